@@ -48,8 +48,8 @@ def run(tier):
         for ci, c in enumerate(cases):
             rank = rng.choice([1, 1, 2, 3, 4])
             pos = rng.randrange(rank)
-            kind = rng.choice(["float", "scaled", "time"])
-            name = "time" if kind == "time" else "x"
+            kind = rng.choice(["float", "scaled", "time", "time_s", "time_ms"])
+            name = "time" if kind.startswith("time") else "x"
             partial = rng.random() < 0.25
             ds, tx, fac, dims, pidx = ic.embed(c, rank, pos, kind, name, rng, partial_nan=partial)
             nn = c["mode"] == "nearest"
@@ -163,13 +163,19 @@ def run(tier):
             method = c["mode"]
             ctx = {"xp": c["xp"], "nan": c["nan"], "method": method}
             try:
-                spec = create_1d_spectrum(f, E2, np.array([0, 3600]), np.array([1.0, 2.0]), np.array([5.0, 6.0]),
-                                          a1=0.5 * ones, b1=ones * b1, a2=-0.25 * ones, b2=0.125 * ones, depth=np.array([10.0, 20.0]))
+                spec = create_1d_spectrum(f, E2, np.array([0, 3600]), np.array([1.0, np.nan]), np.array([np.nan, 6.0]),
+                                          a1=0.5 * ones, b1=ones * b1, a2=-0.25 * ones, b2=0.125 * ones, depth=np.array([np.nan, 20.0]))
                 before = spec.dataset.copy(deep=True)
                 out = spec.interpolate_frequency(tf, method=method)
                 evals += 1
                 if not spec.dataset.identical(before):
                     chk.violation("spectrum-mutated", "interpolate_frequency changed its operand", ctx)
+                for nm in ("depth", "latitude", "longitude", "time"):
+                    a_, b_ = np.asarray(spec.dataset[nm].values), np.asarray(out.dataset[nm].values)
+                    same = np.array_equal(a_, b_) if a_.dtype.kind == "M" else np.array_equal(a_.astype("float64"), b_.astype("float64"), equal_nan=True)
+                    if not same:
+                        chk.violation("spectrum-passive:%s" % nm, "interpolating a spectrum in frequency changed %s (a variable without that coordinate)" % nm,
+                                      dict(ctx, before=str(a_), after=str(b_)))
                 Eo = out.variance_density.values
                 a1o, b1o = out.a1.values, out.b1.values
                 for k in range(len(tf)):
@@ -192,8 +198,11 @@ def run(tier):
                 # 2D spectrum in frequency
                 d = np.array([0.0, 90.0, 180.0, 270.0])
                 vd = E[:, None] * (1.0 + np.arange(4))[None, :]
-                s2 = create_2d_spectrum(f, d, vd[None, :, :], np.array([0]), np.array([1.0]), np.array([5.0]), depth=np.array([10.0]))
-                o2d = s2.interpolate_frequency(tf).variance_density.values
+                s2 = create_2d_spectrum(f, d, vd[None, :, :], np.array([0]), np.array([np.nan]), np.array([5.0]), depth=np.array([np.nan]))
+                o2 = s2.interpolate_frequency(tf)
+                if not (np.isnan(o2.dataset["depth"].values).all() and np.isnan(o2.dataset["latitude"].values).all() and float(o2.dataset["longitude"].values[0]) == 5.0):
+                    chk.violation("spectrum2d-passive", "interpolating a 2D spectrum in frequency changed depth / position", ctx)
+                o2d = o2.variance_density.values
                 evals += 1
                 if method == "linear":
                     for k in range(len(tf)):
